@@ -1100,7 +1100,7 @@ func checkNoSynchronousDetachedExchange(c *Ctx, rel string) {
 // readerExitObservations: the points of ex at which it is known that the reader has returned (a channel in `done`) —
 // or, with ctxToo, that a context ended: a blocking select all of whose cases watch such a channel; in a select that
 // also has other cases (the reply wait), the first instruction of the body of such a case.
-var readerObsBusy = map[*ssa.Function]bool{}
+var readerObsBusy cmap[*ssa.Function, bool]
 
 func readerExitObservations(ex *ssa.Function, done map[string]bool, ctxToo bool) map[ssa.Instruction]bool {
 	// observation points: a blocking select all of whose cases watch the reader's exit or a context; in a select
@@ -1121,10 +1121,10 @@ func readerExitObservations(ex *ssa.Function, done map[string]bool, ctxToo bool)
 	eachInstr(ex, func(in ssa.Instruction) {
 		if cl, ok := in.(*ssa.Call); ok {
 			// a NEW helper of the exchange none of whose returns is reachable without such an observation
-			if h := cl.Call.StaticCallee(); h != nil && h != ex && isNewHelper(h) && len(h.Blocks) > 0 && h.Pkg == ex.Pkg && !readerObsBusy[h] {
-				readerObsBusy[h] = true
+			if h := cl.Call.StaticCallee(); h != nil && h != ex && isNewHelper(h) && len(h.Blocks) > 0 && h.Pkg == ex.Pkg && !cmapHas(&readerObsBusy, h) {
+				readerObsBusy.set(h, true)
 				obsH := readerExitObservations(h, done, ctxToo)
-				delete(readerObsBusy, h)
+				readerObsBusy.del(h)
 				if len(obsH) > 0 {
 					if _, leaks := reachFromBlock(h.Blocks[0], isReturn, func(x ssa.Instruction) bool { return obsH[x] }); !leaks {
 						obs[in] = true
@@ -1204,6 +1204,14 @@ func checkCtxCasePollsResult(c *Ctx) {
 		if fn == nil {
 			continue
 		}
+		checkCtxCasePollsResultIn(c, fn)
+	}
+}
+
+// checkCtxCasePollsResultIn: every blocking select of fn that waits for a result and for a context polls the result
+// channel in its ctx.Done() case before any exit (D46, D47, D49).
+func checkCtxCasePollsResultIn(c *Ctx, fn *ssa.Function) {
+	{
 		c.see(fn)
 		key := "ctx-case-polls-result@" + funcName(fn)
 		n := 0
@@ -1244,7 +1252,7 @@ func checkCtxCasePollsResult(c *Ctx) {
 						continue
 					}
 					for _, rc := range resultChans {
-						if st.Chan == rc || chanID(st.Chan) == chanID(rc) {
+						if st.Chan == rc || chanID(st.Chan) == chanID(rc) || sameLoadedPlace(st.Chan, rc) {
 							return true
 						}
 					}
@@ -1262,7 +1270,7 @@ func checkCtxCasePollsResult(c *Ctx) {
 			}
 		})
 		c.check(why == "" && n > 0, key, fn.Pos(), "the ctx.Done() case polls the result channel before it gives up",
-			why+": when the reply was completely read before the caller's deadline and the caller reaches its select afterwards, both cases are ready and about half of such exchanges return the context error although the reply arrived in time (D46 / D47)")
+			why+": when the reply was completely read before the caller's deadline and the caller reaches its select afterwards, both cases are ready and about half of such exchanges return the context error although the reply arrived in time (D46 / D47 / D49)")
 	}
 }
 
@@ -1438,16 +1446,16 @@ type pollSummary struct {
 	pollsLast     bool // the last blocking or polling operation before every return is the non-blocking poll
 }
 
-var pollSummaryCache = map[*ssa.Function]*pollSummary{}
+var pollSummaryCache cmap[*ssa.Function, *pollSummary]
 
 func replyPollSummary(h *ssa.Function) *pollSummary {
 	if h == nil {
 		return nil
 	}
-	if v, ok := pollSummaryCache[h]; ok {
+	if v, ok := pollSummaryCache.get(h); ok {
 		return v
 	}
-	pollSummaryCache[h] = nil
+	pollSummaryCache.set(h, nil)
 	if !isNewHelper(h) {
 		return nil
 	}
@@ -1559,7 +1567,7 @@ func replyPollSummary(h *ssa.Function) *pollSummary {
 			sum.restores = false
 		}
 	}
-	pollSummaryCache[h] = sum
+	pollSummaryCache.set(h, sum)
 	return sum
 }
 
